@@ -43,18 +43,27 @@ static Setup setup_for(const Config& c) {
 	s.spec.skinned = true;
 	s.spec.raw_vert_weights = A.geti("rawfive", 0) != 0;
 	if (c.pat == W_MANY84) {
-		s.mesh = make_mesh(21);
-		for (int i = 0; i < 7; i++) s.mesh.tris.push_back(Triangle((uint16_t) (3 * i), (uint16_t) (3 * i + 1), (uint16_t) (3 * i + 2)));
+		// 8 disjoint triangles over 24 vertices, 84 bones: triangles 0-5 bring 12 bones each (72), triangle 6 brings
+		// 8 more (exactly 80, the SSE limit), triangle 7 one more (81): a rebuild must split before it
+		s.mesh = make_mesh(24);
+		for (int i = 0; i < 8; i++) s.mesh.tris.push_back(Triangle((uint16_t) (3 * i), (uint16_t) (3 * i + 1), (uint16_t) (3 * i + 2)));
 		s.spec.nbones = 84;
-		s.w.resize(21);
-		for (int v = 0; v < 21; v++) for (int k = 0; k < 4; k++) s.w[v].push_back({4 * v + k, 0.25f});
+		s.w.resize(24);
+		for (int v = 0; v < 20; v++) for (int k = 0; k < 4; k++) s.w[v].push_back({4 * v + k, 0.25f});
+		for (int k = 0; k < 4; k++) s.w[20].push_back({76 + k, 0.25f});
+		s.w[21] = {{80, 1.0f}};
+		s.w[22] = {{0, 1.0f}};
+		s.w[23] = {{1, 1.0f}};
 	}
 	else if (c.pat == W_MANY20) {
+		// triangles bring 12, 4, 2 (exactly 18, the OB/FO3 limit) and 1 more bone (19)
 		s.mesh = make_mesh(6);
 		for (int i = 0; i < 4; i++) s.mesh.tris.push_back(tri_pool6()[i]);
 		s.spec.nbones = 20;
 		s.w.resize(6);
-		for (int v = 0; v < 6; v++) for (int k = 0; k < 4; k++) s.w[v].push_back({(4 * v + k) % 20, 0.25f});
+		for (int v = 0; v < 4; v++) for (int k = 0; k < 4; k++) s.w[v].push_back({4 * v + k, 0.25f});
+		s.w[4] = {{16, 0.5f}, {17, 0.5f}};
+		s.w[5] = {{18, 1.0f}};
 	}
 	else {
 		s.mesh = make_mesh(6);
@@ -203,7 +212,10 @@ static bool apply_op(Model& m, const Op& o, Ctx& cx) {
 				pi.partID = (uint16_t) (32 + i);
 				info.push_back(pi);
 			}
-			nif.SetShapePartitions(m.shape, info, o.a);
+			// one entry per triangle the shape has now (an SSE shape reloaded after its partitions were deleted has fewer)
+			std::vector<int> tp = o.a;
+			tp.resize(m.shape->GetNumTriangles(), 0);
+			nif.SetShapePartitions(m.shape, info, tp);
 			m.orphaned = false;
 			m.vmap_exact = true;
 			break;
@@ -512,7 +524,7 @@ int main(int argc, char** argv) {
 		Config c;
 		c.game = g; c.pat = W_MANY20; c.T = 4; c.depth = thorough ? 3 : 2;
 		cfgs.push_back(c);
-		c.pat = W_MANY84; c.T = 7; c.depth = 2;
+		c.pat = W_MANY84; c.T = 8; c.depth = 2;
 		cfgs.push_back(c);
 	}
 	if (A.has("depth")) for (auto& c : cfgs) c.depth = (int) A.geti("depth", 2);
@@ -570,15 +582,15 @@ int main(int argc, char** argv) {
 				cj = J::parse(inflight);
 				for (auto& o : cj["ops"].a) sig += (sig.empty() ? "" : ">") + o[0].str();
 			} catch (std::exception&) { cj = J::obj(); }
-			parent.violation(std::string(game_name(c.game)) + ":crash:" + ci.key() + ":" + sig,
-							 c.id() + ": worker died (" + ci.cls + " in " + ci.frame + ") while replaying a history of valid calls", cj);
+			parent.violation(std::string(game_name(c.game)) + ":crash:" + ci.key(),
+							 c.id() + ": worker died (" + ci.cls + " in " + ci.frame + ") while replaying the valid calls " + sig, cj);
 			parent.add("crashes");
 			return inflight;
 		}, top);
 
 	top.set_info("rule",
 		vf::strf("skinned meshes (6 vertices, first T of 5 pool triangles, T=1..%d; 5 bones) x games OB/FO3/SK/SSE x per-vertex weight patterns {none, one, two, four, five(truncated to 4), mixed}, "
-				 "plus a 20-bone mesh (T=4) and an 84-bone mesh (21 vertices, T=7) per game; histories over "
+				 "plus a 20-bone mesh (T=4, bone counts 12/16/18/19 along the triangles) and an 84-bone mesh (24 vertices, T=8, bone counts 72/80/81) per game; histories over "
 				 "{UpdateSkinPartitions, GetShapePartitions, SetDefaultPartition, RemoveEmptyPartitions, Save+Load, DeletePartitions(S) for every non-empty subset S of the current partitions "
 				 "(more than 4 partitions: singletons, their complements, all), SetShapePartitions with 4 fixed assignments} of length <= depth, in which at most one operation "
 				 "may instead be any SetShapePartitions(info size 0..2, triParts in {-1,0,1,2}^T) (many-bone meshes: {0,1}^T); depth 3 for T<=%d%s, depth 2 otherwise; "
